@@ -37,10 +37,10 @@ from ..realise import puritydocs as PD  # noqa: E402
 SPEC = os.path.join(SPECS, "purity", "MC_Purity.tla")
 TRACE_SPEC = os.path.join(SPECS, "purity", "PurityTrace.tla")
 ADDRESS_DEVS = ("InlineNameIsAddress", "TieBreakByAddress")
-DANGEROUS = ["EncodingNoCopy", "EncodingLazyCopy", "ColorSpaceNoCopy", "InitResourcesEarlyReturn", "ObjStmSiblingsCached", "ContentsArrayConsumed", "BuiltinEncodingAssigned", "DirectFontInheritsObjId", "UseCMapAlias", "UMapKeyCoarse", "SharedManager", "DecipherTwice",
+DANGEROUS = ["EncodingNoCopy", "EncodingLazyCopy", "ColorSpaceNoCopy", "InitResourcesEarlyReturn", "ObjStmSiblingsCached", "ContentsArrayConsumed", "FormsInProgressByIdentity", "BuiltinEncodingAssigned", "DirectFontInheritsObjId", "UseCMapAlias", "UMapKeyCoarse", "SharedManager", "DecipherTwice",
              "DescendantNoCopy", "InlineNameIsAddress", "TieBreakByAddress"]
 # the smallest pool / number of calls in which each dangerous alternative breaks Functional
-REFUTE_IN = {"EncodingNoCopy": ('{"dA", "dB"}', 2), "EncodingLazyCopy": ('{"dA", "dB"}', 2), "InitResourcesEarlyReturn": ('{"dB"}', 1), "ObjStmSiblingsCached": ('{"dA"}', 1), "ContentsArrayConsumed": ('{"dC"}', 1), "BuiltinEncodingAssigned": ('{"dB", "dC"}', 2),
+REFUTE_IN = {"EncodingNoCopy": ('{"dA", "dB"}', 2), "EncodingLazyCopy": ('{"dA", "dB"}', 2), "InitResourcesEarlyReturn": ('{"dB"}', 1), "ObjStmSiblingsCached": ('{"dA"}', 1), "ContentsArrayConsumed": ('{"dC"}', 1), "FormsInProgressByIdentity": ('{"dB"}', 1, "{FALSE}"), "BuiltinEncodingAssigned": ('{"dB", "dC"}', 2),
              "DirectFontInheritsObjId": ('{"dA"}', 1), "ColorSpaceNoCopy": ('{"dA", "dC"}', 2), "UseCMapAlias": ('{"dA"}', 2),
              "UMapKeyCoarse": ('{"dA", "dB"}', 2), "SharedManager": ('{"dA", "dB"}', 2), "DecipherTwice": ('{"dC"}', 1),
              "DescendantNoCopy": ('{"dA"}', 1), "InlineNameIsAddress": ('{"dA"}', 1), "TieBreakByAddress": ('{"dB"}', 1)}
@@ -200,9 +200,10 @@ def tlc_jobs(ck, dev):
                                       PageSets="<- TwoPageSets")
 
     def refute(d):
-        docs, calls = REFUTE_IN[d]
+        docs, calls = REFUTE_IN[d][:2]
+        flags = REFUTE_IN[d][2] if len(REFUTE_IN[d]) > 2 else "{TRUE}"
         cfg = write_cfg(os.path.join(ck.tmp, "c12_dev_%s.cfg" % d),
-                        constants=base_constants([d], Docs=docs, MaxCalls=calls, MaxLive=1, Cachings="{TRUE}", PageSets="<- BothPages",
+                        constants=base_constants([d], Docs=docs, MaxCalls=calls, MaxLive=1, Cachings=flags, PageSets="<- BothPages",
                                                  EarlyClose="FALSE", ClientCalls="TRUE" if d == "UseCMapAlias" else "FALSE"),
                         next="Next0", invariants=["Functional"])
         return run_tlc(SPEC, cfg, workers=1, timeout=3600, env=SMALL_JVM)
@@ -580,6 +581,17 @@ def mixed_font_dict_doc(order, in_form):
     return simple_doc([b"/Fm1 Do", b"/Fm1 Do"], fonts={}, xobjects={"Fm1": Ref(42)}, extra_objects=extra)[0]
 
 
+MANY = "generated:many-names"
+
+
+def many_names_doc(n=70000):
+    """one page whose content stream holds n distinct names (/T0 MP /T1 MP ...) and n distinct unknown keywords: the interning
+    tables (PSLiteralTable, PSKeywordTable) grow by n entries each while it is read"""
+    from ..realise.pdfwriter import simple_doc
+    body = b" ".join(b"/T%d MP" % i for i in range(n)) + b" " + b" ".join(b"K%dq" % i for i in range(n))
+    return simple_doc([b"BT /F1 10 Tf 50 700 Td (many) Tj ET " + body])[0]
+
+
 def std14_doc(widths):
     """a standard-14 font (metrics come from the shared FONT_METRICS table) that also carries its own /Widths"""
     from ..realise.pdfwriter import simple_doc, type1_font
@@ -600,6 +612,7 @@ def generated_corpus(docs):
         out["generated:diff-pop-only:" + base] = differences_doc(base, [97, N("g77")])
         out["generated:diff-same-then-pop:" + base] = differences_doc(base, [67, N("C"), 99, N("g88")])
         out["generated:diff-none:" + base] = differences_doc(base, [])
+    out[MANY] = many_names_doc()
     for v in ("std-def", "array", "plain"):
         out["generated:t1-" + v] = type1_program_doc(v)
     for order in ("indirect-first", "direct-first"):
@@ -629,6 +642,8 @@ def record_history(args):
 def plan_history(rng, corpus, per_doc):
     calls = []
     for label, info in corpus.items():
+        if label == MANY:
+            continue
         U = list(range(min(info["npages"], 3)))
         for _ in range(per_doc):
             kind = rng.choice(KINDS)
@@ -647,6 +662,11 @@ def plan_history(rng, corpus, per_doc):
             calls.append((label, rng.choice(KINDS), True, None))
             calls.append((label, rng.choice(KINDS), False, None))
     rng.shuffle(calls)
+    # every history ends with: an ordinary document, the document with 70 000 distinct names and keywords, the ordinary
+    # document again (interning tables: size may grow, the identity of what is interned must not change)
+    if MANY in corpus:
+        kind = rng.choice(KINDS)
+        calls += [("generated:dB", kind, True, None), (MANY, "text", True, None), ("generated:dB", kind, True, None)]
     return calls
 
 
